@@ -12,6 +12,7 @@
     No proofs in this file. *)
 From Coq Require Import String ZArith QArith Bool Arith List.
 From GT Require Import Base.UTree Model.Reroot.
+From GT Require Spec.Obs.
 From GT Require Model.Outgroup Model.Prune Model.Collapse Model.LocalEdit Model.NNI Model.Nexus.
 Import ListNotations.
 Local Close Scope Q_scope.
@@ -119,3 +120,32 @@ Fixpoint run (ops : list (bool * op)) (t : utree) : res utree :=
   | [] => Ok t
   | s :: r => match run_step s t with Ok t' => run r t' | Err m => Err m end
   end.
+
+(** * boolean versions of the side conditions of the history theorem (Proofs/History.v), for
+    closed examples: what the lemma of an operation needs beyond [wf] of the current tree *)
+Definition distinct_tips_b (re : bool) (t : utree) : bool :=
+  re || negb (Prune.has_dup (Obs.leaves t)).
+
+Definition side_b (s : bool * op) (t : utree) : bool :=
+  match snd s with
+  | OOutgroup remove _ _ => Nat.leb 2 (degree t) && (negb remove || distinct_tips_b (fst s) t)
+  | OMidpoint =>
+    Nat.leb 2 (degree t) && (negb (rooted t) || existsb (fun p => negb (is_tip (snd p))) (kids t))
+  | OPrune _ _ => no_single t && Nat.leb 2 (degree t) && distinct_tips_b (fst s) t
+  | OInsert groups =>
+    Nat.leb 2 (degree t) && negb (Prune.name_in "" (tip_names t)) &&
+    forallb (fun g => negb (Prune.name_in "" g)) groups
+  | OGraft _ g => wf g
+  | OMerge t2 => wf t2
+  | _ => true
+  end.
+
+Fixpoint sides_b (ops : list (bool * op)) (t : utree) : bool :=
+  match ops with
+  | [] => true
+  | s :: r => side_b s t && match run_step s t with Ok t' => sides_b r t' | Err _ => true end
+  end.
+
+(** the history runs to its end (and the final tree is well formed) *)
+Definition run_ok_b (ops : list (bool * op)) (t : utree) : bool :=
+  match run ops t with Ok t' => wf t' | Err _ => false end.
